@@ -22,8 +22,11 @@ PROPS = {
     'C07': dict(units=['cmp', 'cmp2'], title='comparison, equality, hashing'),
     'C08': dict(units=['powlog'], title='powers and logarithms'),
     'C09': dict(units=['xcast'], title='integer casts'),
+    'C10': dict(units=['parse'], title='parsing'),
     'C11': dict(units=['radixout'], title='radix output'),
+    'C13': dict(units=['xcast'], title='checked conversions'),
     'C14': dict(units=[], level='model_checking', title='float casts'),
+    'C19': dict(units=[], level='model_checking', title='num_traits conversions'),
     'C15': dict(units=['slices'], title='slices and endianness'),
     'C16': dict(units=['consts'], title='digit-type independence and constants'),
 }
